@@ -22,6 +22,8 @@ UCore == <<
   BigV(FALSE, <<49, 56, 52, 52, 54, 55, 52, 52, 48, 55, 51, 55, 48, 57, 53, 53, 49, 54, 49, 53>>),
   \* 2^63: the first whole number beyond int64 - held as an unsigned integer, or (it is a power of two) exactly as a float
   BigV(FALSE, TwoTo63),
+  \* ... and its predecessor, the largest int64: rounded to a float it would be 2^63
+  BigV(FALSE, <<57, 50, 50, 51, 51, 55, 50, 48, 51, 54, 56, 53, 52, 55, 55, 53, 56, 48, 55>>),
   Nil, Bool(TRUE), Bool(FALSE),
   IntV(0 - 1), IntV(0), IntV(1), IntV(2), IntV(97),
   Flt(0 - 1, 2), Flt(0, 1), Flt(1, 1), Flt(3, 2), Flt(5, 2),
